@@ -4228,7 +4228,12 @@ def c09(ctx):
              (["@@\n@@\n-foo(...)\n+bar(...)\n+baz(...)\n", "@@\nvar v expression\n@@\n-v.Get()\n+v.Load()\n"],
               "package a\n\nfunc f() {\n\tfoo(x.Get(), y.Get())\n}\n"),
              (["@@\nvar e expression\n@@\n-dup(e)\n+pair(e, e)\n", "@@\n@@\n-old()\n+renewed()\n"],
-              "package a\n\nfunc f() {\n\tdup(old())\n\tdup(wrap(old(), 1))\n}\n")]
+              "package a\n\nfunc f() {\n\tdup(old())\n\tdup(wrap(old(), 1))\n}\n"),
+             # a later change that matches a node and a node inside it, in code an earlier change regenerated and in code it did not
+             (["@@\nvar x expression\n@@\n-compute(x)\n+calc(x)\n", "@@\n@@\n-foo(...)\n+bar(...)\n"],
+              "package a\n\nfunc f() {\n\tcompute(foo(foo(1)))\n\tfoo(foo(2))\n\tcompute(foo(3, foo(foo(4))))\n}\n"),
+             (["@@\nvar x, y expression\n@@\n-compute(x, y)\n+calc(y, x)\n", "@@\nvar v expression\n@@\n-wrap(v)\n+v\n"],
+              "package a\n\nfunc f() {\n\tcompute(wrap(wrap(1)), wrap(2))\n\twrap(wrap(wrap(3)))\n}\n")]
     for ti, (tchain, tsrc) in enumerate(twice):
         for how_ in ("flags", "one-file", "list"):
             todo.append(({"id": f"twice{ti}/{how_}", "chain": tchain, "src": tsrc}, how_))
